@@ -28,7 +28,8 @@ ASSUMPTIONS = [
     "way) x all insertion orders x all orientations; arbitrary labellings/names of 7-8 node trees are "
     "sampled by trees_labelled_random, not enumerated (1.7e11 histories for n = 8)",
     "graphs: a link may be inserted twice (beyond's own create_station does so), which must change nothing",
-    "registrations: stations on ITRF/TIRF/PEF, orbit frames (None/QSW/TNW) on Kepler orbits given in "
+    "registrations: stations on ITRF/TIRF/PEF (coordinates given as a tuple or as one float ndarray object "
+    "re-used - unchanged or rewritten in place - for later stations), orbit frames (None/QSW/TNW) on Kepler orbits given in "
     "EME2000/GCRF/MOD, frames attached (orbit2frame / as_frame, None/QSW/TNW) to state vectors or Kepler orbits "
     "EXPRESSED IN a frame generated earlier in the history (stations by preference; chains of depth 2-3), "
     "a point of every new frame converted into ITRF/WGS84/PEF/TIRF/EME2000/TOD, its base frame and the latest "
@@ -580,7 +581,10 @@ def reg_case(draw, shard, tier):
     for _ in range(d.int(2, 12)):
         kind = d.pick("station", "station", "orbit", "orbit", "attached", "attached", "attached", "body")
         if kind == "station":
-            ops.append(dict(op="station", lat=d.u(-89.0, 89.0), lon=d.u(-180.0, 180.0), alt=d.u(0.0, 3000.0),
+            # how the 'user' hands the coordinates over: a fresh tuple, or one float ndarray object that is
+            # re-used for later stations - unchanged, or rewritten in place with the new coordinates
+            ops.append(dict(op="station", coords=d.pick("tuple", "array_reuse", "array_reuse", "array_rewrite"),
+                            lat=d.u(-89.0, 89.0), lon=d.u(-180.0, 180.0), alt=d.u(0.0, 3000.0),
                             parent=d.pick("ITRF", "ITRF", "TIRF", "PEF"), equatorial=d.int(0, 5) == 0))
         elif kind == "orbit":
             ops.append(dict(op="orbit", orientation=d.pick(None, "QSW", "TNW"), frame=d.pick("EME2000", "EME2000", "MOD", "TOD", "MOD", "EME2000", "TOD", "GCRF"),
@@ -698,12 +702,44 @@ def check_registrations(case):
     nreg = 0
     worst = 0.0
     depth = {}
+    user = dict(arr=None, uses=0)
+    probes = {}
+
+    def probe_keys():
+        """A probe state between every pair of generated frames (every ordered pair while there are at most
+        5 of them, then 12 drawn pairs) and between each of them and EME2000 / ITRF."""
+        gens = [g[0] for g in generated]
+        keys = [("EME2000", g) for g in gens] + [(g, "ITRF") for g in gens]
+        if len(gens) <= 5:
+            keys += [(a, b) for a in gens for b in gens if a != b]
+        else:
+            for _ in range(12):
+                a, b = gens[next(picks) % len(gens)], gens[next(picks) % len(gens)]
+                if a != b:
+                    keys.append((a, b))
+        return keys
+
     for step, op in enumerate(case["ops"]):
         _proc["counter"] += 1
         name = f"R{os.getpid() % 1000}x{_proc['counter']}"
         if op["op"] == "station":
-            fr = create_station(name, (op["lat"], op["lon"], op["alt"]), parent_frame=frames.get_frame(op["parent"]),
-                                equatorial=op["equatorial"])
+            mode = op.get("coords", "tuple")
+            if mode == "tuple":
+                arg = (op["lat"], op["lon"], op["alt"])
+            else:
+                if user["arr"] is None or mode == "array_rewrite":
+                    if user["arr"] is None:
+                        user["arr"] = np.zeros(3)
+                    user["arr"][:] = [op["lat"], op["lon"], op["alt"]]
+                arg = user["arr"]
+                user["uses"] += 1
+            given = np.array(arg, dtype=float, copy=True)
+            fr = create_station(name, arg, parent_frame=frames.get_frame(op["parent"]), equatorial=op["equatorial"])
+            if mode != "tuple" and not np.array_equal(np.asarray(arg, float), given) and user.get("modified") is None:
+                # C11 owns 'arguments are not modified'; it is only reported here at the end of the history,
+                # if the conversions among pre-existing frames - this property's clause - did not object first
+                user["modified"] = (f"create_station('{name}', <float ndarray>) rewrote the caller's array from "
+                                    f"{given.tolist()} to {np.asarray(arg, float).tolist()}")
         elif op["op"] == "orbit":
             mu = 3.986004418e14
             rv = tb.kep2cart(op["a"], op["e"], op["i"], op["raan"], op["argp"], op["nu"], mu)
@@ -744,6 +780,11 @@ def check_registrations(case):
         # 2. conversions among frames that existed before: bit-identical; stored offsets untouched
         offsets_intact(what)
         table_intact(what)
+        for (src, dst), before in probes.items():
+            now = conv(src, dst)[0]
+            if not np.array_equal(now, before):
+                raise Violation("pre-existing-changed", f"{what}: {src} -> {dst} of the same state changed from "
+                                f"{before.tolist()} to {now.tolist()}", src=src, dst=dst)
         # 2b. a point given in the new frame goes into every orientation family - Earth-fixed, inertial,
         #     the frame it hangs off and the other generated frames - and after EVERY single conversion
         #     the pre-existing conversions and the stored offsets are still what they were
@@ -797,10 +838,14 @@ def check_registrations(case):
                 if len(table) < 20:
                     table.setdefault((other, g[0]), conv(other, g[0])[0])
         record(2)
+        probes = {k: conv(*k)[0] for k in probe_keys()}
     offsets_intact("at the end of the history")
     table_intact("at the end of the history")
+    if user.get("modified"):
+        raise Violation("argument-modified", user["modified"])
     dmax = max(depth.values(), default=0)
     return dict(nt=nreg >= 1, cls=[f"regs:{min(nreg, 12) // 4 * 4}+", f"depth:{min(dmax, 3)}"]
+                + (["shared-array"] if user["uses"] > 1 else [])
                 + sorted({op["op"] for op in case["ops"]}), ratio=worst)
 
 
@@ -828,6 +873,6 @@ FACETS = [
     Facet("graphs", graph_case, check_graph_case, setup=_setup,
           rule=">= 4 nodes", quick=(8, 500), thorough=(16, 5000)),
     Facet("registrations", reg_case, check_registrations, setup=_setup,
-          rule="at least one registration between two conversions", quick=(16, 6), thorough=(32, 12),
+          rule="at least one registration between two conversions", quick=(16, 5), thorough=(32, 12),
           shrink_quick=False, case_timeout=300),
 ]
